@@ -377,7 +377,8 @@ func run04(c drv.Case, res *drv.Result) {
 		runFault04(p, res)
 		return
 	}
-	env := coreh.NewEnv(memstore.Config{})
+	// the store's readers hand blobs out whole, in small pieces, and/or with their last bytes together with io.EOF
+	env := coreh.NewEnv(memstore.Config{ChunkedReader: []int{0, 0, 7, 4096}[p.Seed%4], EOFWithData: (p.Seed/4)%2 == 1})
 	if err := env.CreateRepo(nil, "repo"); err != nil {
 		panic(err)
 	}
